@@ -433,6 +433,9 @@ NATIVE_PAIRS = [
     ("parenthesised_local_recursive_function", "start :: fn do\n    fac :: fn n: int -> int do\n    " + FACT + "    end\n    pr(fac(3))\nend\n", "start :: fn do\n    fac :: (fn n: int -> int do\n    " + FACT + "    end)\n    pr(fac(3))\nend\n"),
     ("arrow_onto_lambda_callee", "start :: fn do\n    pr((fn g: fn int -> int, y: int -> int do ret g(y) end)((fn q: int -> int do ret q + 1 end), 2))\nend\n", "start :: fn do\n    pr((fn q: int -> int do ret q + 1 end) -> (fn g: fn int -> int, y: int -> int do ret g(y) end)(2))\nend\n"),
     ("blank_line_in_prime_call_continuation", HEAD + "start :: fn do\n    x := add' 1,\n        2\n    pr(x)\nend\n", HEAD + "start :: fn do\n    x := add' 1,\n\n        2\n    pr(x)\nend\n"),
+    ("parenthesised_method_literal", "Ab :: blob {\n    x: int,\n    get: fn -> int,\n}\nstart :: fn do\n    a := Ab { x: 3, get: fn -> int do ret self.x end }\n    pr(a.get())\nend\n", "Ab :: blob {\n    x: int,\n    get: fn -> int,\n}\nstart :: fn do\n    a := Ab { x: 3, get: (fn -> int do ret self.x end) }\n    pr(a.get())\nend\n"),
+    ("parenthesised_index_literal", "start :: fn do\n    t := (1, 2)\n    pr(t[0] + t[1])\nend\n", "start :: fn do\n    t := (1, 2)\n    pr(t[(0)] + t[((1))])\nend\n"),
+    ("prime_call_of_parenthesised_callee_in_operator_context", HEAD + "start :: fn do\n    pr(1 + add(1, 2))\n    pr(1 -> add(2))\nend\n", HEAD + "start :: fn do\n    pr(1 + (add)' 1, 2)\n    pr(1 -> (add)' 2)\nend\n"),
     ("blank_and_comment_lines_before_leading_comma_continuation", HEAD + "start :: fn do\n    x := add' 1\n        , 2\n    pr(x)\nend\n", HEAD + "start :: fn do\n    x := add' 1\n\n        // the second one\n\n        , 2\n    pr(x)\nend\n"),
     ("comment_line_in_prime_call_continuation", HEAD + "start :: fn do\n    x := add' 1,\n        2\n    pr(x)\nend\n", HEAD + "start :: fn do\n    x := add' 1,\n        // the second one\n        2\n    pr(x)\nend\n"),
     ("prime_in_arrow_in_multiline_args", HEAD + "start :: fn do\n    pr(add(add(1, 2), inc(3)))\nend\n", HEAD + "start :: fn do\n    pr(\n        (add' 1, 2) -> add(\n            // the second argument\n            inc' 3\n        )\n    )\nend\n"),
